@@ -206,7 +206,7 @@ func c02MandElems(m *bind.Msg) []c02Elem {
 	var out []c02Elem
 	for i := range m.Slots {
 		if !m.Slots[i].Optional {
-			out = append(out, c02Elem{Slot: i, Len: m.Slots[i].Min, Walk: -1})
+			out = append(out, c02Elem{Slot: i, Len: m.Slots[i].Min, Walk: -1, Pat: 600 + i})
 		}
 	}
 	return out
